@@ -55,6 +55,43 @@ def ids(rng, tier):
     return out
 
 
+def limb_neighbours(M, rng, count):
+    """256-bit values whose 64-bit limbs are each the corresponding limb of M, or that limb +-1 (mod 2^64): the 81 patterns, shuffled"""
+    limbs = [(M >> (64 * i)) & ((1 << 64) - 1) for i in range(4)]
+    out = []
+    for pat in range(81):
+        v = 0
+        q = pat
+        for i in range(4):
+            dlt = (q % 3) - 1
+            q //= 3
+            v |= ((limbs[i] + dlt) % (1 << 64)) << (64 * i)
+        out.append(v)
+    rng.shuffle(out)
+    out = out[:count]
+    # first differing limb j is above / below M's, the limbs under it are random below / above M's (in every mix): values a
+    # comparator that drops the "higher limbs are equal" guard of one limb misjudges
+    for j in range(4):
+        for sign in (1, -1):
+            for kind in range(4):
+                v = 0
+                ok = True
+                for i in range(4):
+                    if i > j:
+                        li = limbs[i]
+                    elif i == j:
+                        li = limbs[i] + sign * rng.choice([1, 2, rng.randrange(1, 1 << 32)])
+                    else:
+                        below = (kind >> (i % 2)) & 1 if kind in (1, 2) else (kind == 0)
+                        li = rng.randrange(0, max(1, limbs[i] - 1)) if below else rng.randrange(min(limbs[i] + 2, (1 << 64) - 1), 1 << 64)
+                    if not (0 <= li < (1 << 64)):
+                        ok = False
+                    v |= (li % (1 << 64)) << (64 * i)
+                if ok:
+                    out.append(v)
+    return out
+
+
 def good_k(rng):
     return H(rscalar(rng))
 
@@ -70,6 +107,53 @@ def load(fname):
 
 def keys_corpus():
     return {r[0]: r for r in load('sm2_keys.txt')}
+
+
+# ----------------------------------------------------------------------------- representation independence (`_j` ops)
+def special_zs(rng):
+    """canonical Z values whose STORED (Montgomery) limbs are special: [1,0,0,0] (the integer one, not the field one), [2,0,0,0],
+    [0,1,0,0], [0,0,1,0], p-1 raw; and the field elements 1 (affine), -1, 2, a random one"""
+    rinv = pow(E.R, -1, P)
+    return [rinv, 2 * rinv % P, (1 << 64) * rinv % P, (1 << 128) * rinv % P, (P - 1) * rinv % P, 1, P - 1, 2, rng.randrange(3, P)]
+
+
+_JPOS = {'sm2_verify': 'sm2_verify_j', 'sm2_verify_raw': 'sm2_verify_raw_j', 'sm2_enc': 'sm2_enc_j', 'sm2_za': 'sm2_za_j', 'sm2_kex': 'sm2_kex_j'}
+
+
+def only_classes(gen, prefixes):
+    """the ops of `gen` whose class starts with one of `prefixes` (used to share the 'valid-…' acceptance classes of C04 with C03)"""
+    def g(tier, rng):
+        for cls, op, exp in gen(tier, rng):
+            if cls.startswith(tuple(prefixes)):
+                yield (cls, op, exp)
+    return g
+
+
+def with_rep_variants(gen, always=('valid', 'annex', 'std', 'honest', 'openssl'), rate=0.08):
+    """wrap a generator: ops that hand a public key (or, in the key agreement, ephemeral points) to the library are repeated with the
+    point given in a Jacobian representation (x z^2, y z^3, z), z from `special_zs`; the expected answer is the same"""
+    def g(tier, rng):
+        r2 = random.Random(rng.getrandbits(64))
+        zs = special_zs(r2)
+        n = 0
+        for cls, op, exp in gen(tier, rng):
+            yield (cls, op, exp)
+            t = op.split(' ', 1)
+            if t[0] in _JPOS and len(t) == 2:
+                want = any(a in cls for a in always) or r2.random() < rate
+                if not want:
+                    continue
+                reps = zs if (n < 2 or tier == 'thorough' and n < 8) else [zs[n % len(zs)], zs[(n * 5 + 3) % len(zs)]]
+                n += 1
+                for z in reps:
+                    if t[0] == 'sm2_kex':
+                        zz = ','.join(H(v) for v in (z, zs[(n + 1) % len(zs)], zs[(n + 2) % len(zs)], z))
+                        yield (cls + '-jacobian-rep', '%s %s %s' % (_JPOS[t[0]], zz, t[1]), exp)
+                        zz = ','.join(H(v) for v in (1, 1, z, zs[(n + 3) % len(zs)]))
+                        yield (cls + '-jacobian-rep', '%s %s %s' % (_JPOS[t[0]], zz, t[1]), exp)
+                    else:
+                        yield (cls + '-jacobian-rep', '%s %s %s' % (_JPOS[t[0]], H(z), t[1]), exp)
+    return g
 
 
 # ----------------------------------------------------------------------------- C03
@@ -266,6 +350,52 @@ def gen_c04(tier, rng):
             if Pk is not None and r0 and E.add(E.mul(s0, E.G), E.mul(t_, Pk)) == (xq, yq):
                 yield ('valid-with-x1>=n', 'sm2_verify_raw %s %s %s%s' % (E.enc(Pk), H(e), H(r0), H(s0)), 'OK')
                 yield ('x1>=n-unreduced-r-must-fail', 'sm2_verify_raw %s %s %s%s' % (E.enc(Pk), H((e + 1) % N), H(r0), H(s0)), 'ERR')
+    # x1 in [n, p) TOGETHER with a digest next to 2^256 (e + x1 >= 2^256 + n: a carry fold that itself wraps)
+    if yq is not None:
+        for dlt in (1, 2, max(1, (xq - N) // 2), max(1, xq - N), xq - N + 1):
+            e = (1 << 256) - dlt
+            s0, t_ = rscalar(rng), None
+            r0 = (e + xq) % N
+            t_ = (r0 + s0) % N
+            if not r0 or not t_:
+                continue
+            Pk = E.mul(pow(t_, -1, N), E.add((xq, yq), E.neg(E.mul(s0, E.G))))
+            if Pk is not None and E.add(E.mul(s0, E.G), E.mul(t_, Pk)) == (xq, yq):
+                yield ('valid-with-x1>=n-and-digest-near-2^256', 'sm2_verify_raw %s %s %s%s' % (E.enc(Pk), H(e), H(r0), H(s0)), 'OK')
+    # VALID signatures for limb-structured digests e (limbs 0, 1, 2^64-1, the limbs of n and their neighbours): the reduction of e
+    # modulo n borrows through zero limbs / carries through all-ones limbs
+    nl = [(N >> (64 * i)) & ((1 << 64) - 1) for i in range(4)]
+    def structured(top_choices):
+        v = 0
+        for i in range(4):
+            ch = [0, 0, 1, (1 << 64) - 1, nl[i], (nl[i] - 1) % (1 << 64), (nl[i] + 1) % (1 << 64), rng.getrandbits(64)]
+            v |= (rng.choice(top_choices) if i == 3 else rng.choice(ch)) << (64 * i)
+        return v
+    for _ in range(60 if tier == 'thorough' else 24):
+        e = structured([0xffffffffffffffff, 0xffffffff00000000, 0xffffffff00000001, nl[3], nl[3] + 1, 0, 1 << 63])
+        d = rscalar(rng, 1, N - 1); k = rscalar(rng)
+        x1 = E.mul(k, E.G)[0]
+        r = (e + x1) % N
+        s_ = pow(1 + d, -1, N) * (k - r * d) % N
+        if r and s_ and (r + k) % N:
+            yield ('valid-with-limb-structured-digest', 'sm2_verify_raw %s %s %s%s' % (E.enc(E.mul(d, E.G)), H(e), H(r), H(s_)), 'OK')
+    # VALID signatures whose INTEGER sum r + s is limb-structured (in [n, 2^256): t = r + s - n is computed by a borrowing subtraction;
+    # below n: no reduction): choose T, split it, solve for the key d = (k - s)/(r + s)
+    for _ in range(60 if tier == 'thorough' else 24):
+        T = structured([0xffffffffffffffff, 0xffffffff00000000, 0xffffffff00000001, nl[3], nl[3] + 1])
+        if not (2 <= T < (1 << 256)) or T % N == 0:
+            continue
+        lo, hi = max(1, T - (N - 1)), min(N - 1, T - 1)
+        if lo > hi:
+            continue
+        r = rng.randrange(lo, hi + 1); s_ = T - r
+        k = rscalar(rng)
+        d = (k - s_) * pow(T % N, -1, N) % N
+        if d in (0, N - 1):
+            continue
+        x1 = E.mul(k, E.G)[0]
+        e = (r - x1) % N
+        yield ('valid-with-limb-structured-r+s', 'sm2_verify_raw %s %s %s%s' % (E.enc(E.mul(d, E.G)), H(e), H(r), H(s_)), 'OK')
     # r + s = n (t = 0 must be rejected): with e = r - x([s]G) the equation would hold under EVERY public key if t = n slipped through
     for s0 in [1, 2, N - 1] + [rscalar(rng) for _ in range(3 if tier == 'thorough' else 1)]:
         r0 = (N - s0) % N
@@ -657,6 +787,12 @@ def gen_c14_sm2(tier, rng):
         yield ('sm2-out-of-range-candidate', 'sm2_enc %s %s 0 c1c3c2 %s,%s' % (pk, hx(b'm'), b_, g), None)
         yield ('sm2-out-of-range-candidate', 'sm2_keygen %s,%s' % (b_, g), None)
         yield ('sm2-out-of-range-candidate', 'sm2_kex %s %s default default 16 %s %s -' % (H(d), H(rscalar(rng, 1, N - 1)), g, good_k(rng)), None)
+    # candidates that agree with the order n in some limbs and are one above / below it in others (a limb-wise comparison that
+    # forgets "higher limbs equal" accepts some of them): all 3^4 patterns, each followed by a good candidate
+    for cand in limb_neighbours(N, rng, 81 if tier == 'thorough' else 27):
+        yield ('sm2-candidate-limbwise-near-order', 'sm2_keygen %s,%s' % (H(cand), good_k(rng)), None)
+        if cand % 3 == 0 or tier == 'thorough':
+            yield ('sm2-candidate-limbwise-near-order', 'sm2_sign %s default %s %s,%s' % (H(d), hx(b'm'), H(cand), good_k(rng)), None)
     for v in (1, N - 1, N - 2):
         yield ('sm2-extreme-in-range', 'sm2_keygen %s' % H(v), None)
         yield ('sm2-extreme-in-range', 'sm2_sign %s default %s %s' % (H(d), hx(b'm'), H(v)), None)
